@@ -16,3 +16,4 @@ def check(repo, rep, tier):
     rep.run(rs.rule_copier_derefs, em, rep, 'C13.S3', fr)
     rep.run(rs.rule_copier_map_shared, em, rep, 'C13.S5', fr)
     rep.run(rx.rule_facts_immutable, em, rep, 'C13.S4')
+    rep.run(rx.rule_no_dereferenced_value_cached, em, rep, 'C13.S6')
